@@ -8,13 +8,29 @@
    "sweep" = the driver runs the scenario once per lower-layer call k of that incarnation with the process
    dying at call k (every crash point), "quiet" = it dies after it settled.  Each scenario is one initial
    state; the invariant prints it as JSON.  The real handler is run on every scenario and the recorded
-   lower-layer events are validated by Trace_Sync against Sync. *)
+   lower-layer events are validated by Trace_Sync against Sync.
+
+   Burst family (BInit, SyncGenBurst.cfg): n distinct blobs (n in BurstSizes, far more than one pass of the copy
+   loop takes in flight: the copier pool, the work channel and the result channel of runSync) become pending
+   at once and must all be delivered after the destination healed:
+     failing          they are uploaded while every destination write fails (hold = the outcome until the heal mark)
+     stall            they are uploaded while the first destination write of the pass in progress does not return;
+                      the next pass finds all of them
+     restart          they are uploaded to an incarnation whose destination is down and which is then killed (or
+                      dies at every lower-layer call: "sweep"); the next incarnation reads n rows from the queue
+     restart-failing  the same, and the destination of the second incarnation is down until the heal mark
+     restart-stall    the incarnation with the stalled pass is killed once everything is acknowledged
+     split            half of them are rows read after a restart, the other half arrives while the second
+                      incarnation's first pass is stalled
+   for every pool size in Pools, uploads one after the other or all at once (Pars). *)
 EXTENDS Naturals, FiniteSets, Sequences, TLC, Json
 
-CONSTANTS MaxLen, MaxRestarts, MaxFaults, Pools, Pars, CrashKinds
+CONSTANTS MaxLen, MaxRestarts, MaxFaults, Pools, Pars, CrashKinds,
+          BurstSizes, BurstHolds, BurstForms      \* burst family only
 
-VARIABLES h, cuts, dstp, srcp, par, pool, crash
-gvars == <<h, cuts, dstp, srcp, par, pool, crash>>
+VARIABLES h, cuts, dstp, srcp, par, pool, crash,
+          hold, stall     \* per incarnation: outcome of every destination write until the heal mark ("" = ok) / first write stalled
+gvars == <<h, cuts, dstp, srcp, par, pool, crash, hold, stall>>
 
 DstPats == {<<>>, <<"error">>, <<"wrongsize">>, <<"after">>, <<"ok", "error">>, <<"error", "error">>,
             <<"error", "wrongsize">>, <<"wrongsize", "ok", "after">>, <<"error", "error", "error">>}
@@ -38,7 +54,24 @@ Init == /\ h \in Hists
              /\ SumW(dstp, r + 1) + SumW(srcp, r + 1) <= MaxFaults
              /\ par \in [1..(r + 1) -> Pars]
              /\ crash \in [1..r -> CrashKinds]
+             /\ hold = [p \in 1..(r + 1) |-> ""] /\ stall = [p \in 1..(r + 1) |-> FALSE]
         /\ pool \in Pools
+
+\* ---- burst family
+Shapes(n, o, ck) ==
+  {[f |-> "failing",         c |-> <<>>,          hd |-> <<o>>,      st |-> <<FALSE>>,        cr |-> <<>>],
+   [f |-> "stall",           c |-> <<>>,          hd |-> <<"">>,     st |-> <<TRUE>>,         cr |-> <<>>],
+   [f |-> "restart",         c |-> <<n>>,         hd |-> <<o, "">>,  st |-> <<FALSE, FALSE>>, cr |-> <<ck>>],
+   [f |-> "restart-failing", c |-> <<n>>,         hd |-> <<o, o>>,   st |-> <<FALSE, FALSE>>, cr |-> <<ck>>],
+   [f |-> "restart-stall",   c |-> <<n>>,         hd |-> <<"", "">>, st |-> <<TRUE, FALSE>>,  cr |-> <<ck>>],
+   [f |-> "split",           c |-> <<n \div 2>>, hd |-> <<o, "">>,  st |-> <<FALSE, TRUE>>,  cr |-> <<ck>>]}
+BInit == \E n \in BurstSizes :
+           \E s \in {x \in UNION {Shapes(n, o, ck) : o \in BurstHolds, ck \in CrashKinds} : x.f \in BurstForms} :
+             /\ h = [i \in 1..n |-> i] /\ cuts = s.c /\ hold = s.hd /\ stall = s.st /\ crash = s.cr
+             /\ dstp = [p \in 1..Len(s.hd) |-> <<>>] /\ srcp = [p \in 1..Len(s.hd) |-> <<>>]
+             /\ \E pp \in Pars : par = [p \in 1..Len(s.hd) |-> pp]
+             /\ pool \in Pools
+
 Next == UNCHANGED gvars
 Spec == Init /\ [][Next]_gvars
 
@@ -46,6 +79,6 @@ NPh == Len(cuts) + 1
 From(p) == IF p = 1 THEN 1 ELSE cuts[p - 1] + 1
 To(p) == IF p = NPh THEN Len(h) ELSE cuts[p]
 Phase(p) == [ups |-> SubSeq(h, From(p), To(p)), par |-> par[p], dst |-> dstp[p], src |-> srcp[p],
-             crash |-> IF p = NPh THEN "none" ELSE crash[p], freeze |-> 0]
+             crash |-> IF p = NPh THEN "none" ELSE crash[p], freeze |-> 0, hold |-> hold[p], stall |-> stall[p]]
 Emit == PrintT(<<"SCN", ToJson([n |-> MaxOf(h, Len(h)), pool |-> pool, phases |-> [p \in 1..NPh |-> Phase(p)]])>>)
 =============================================================================
